@@ -62,6 +62,20 @@ class EndpointUrlArgsGenerator:
                     f"if {param_var_name} is not None else {{}}){line_end}"
                 )
 
+    def _string_value_expr(self, p_info: dict[str, Any], param_var_name: str) -> str:
+        """Returns the expression for a parameter value that httpx only accepts as str (e.g. a header value).
+
+        Numbers and booleans are sent in their string form (booleans as true/false, the way httpx writes them
+        into a query string); every other type is passed on as serialized.
+        """
+        value_expr = f"DataclassSerializer.serialize({param_var_name})"
+        base_type = str(p_info.get("type", "")).replace(" | None", "")
+        if base_type == "bool":
+            return f"str({value_expr}).lower()"
+        if base_type in ("int", "float"):
+            return f"str({value_expr})"
+        return value_expr
+
     def _write_header_params(
         self, writer: CodeWriter, op: IROperation, ordered_params: List[dict[str, Any]], context: RenderContext
     ) -> None:
@@ -82,16 +96,16 @@ class EndpointUrlArgsGenerator:
             original_header_name = p_info["original_name"]  # Actual header name for the request
             line_end = ","
 
+            value_expr = self._string_value_expr(p_info, param_var_name)
+
             if p_info.get("required", False):
-                writer.write_line(
-                    f'    "{original_header_name}": DataclassSerializer.serialize({param_var_name}){line_end}'
-                )
+                writer.write_line(f'    "{original_header_name}": {value_expr}{line_end}')
             else:
                 # Conditional inclusion for optional headers
                 # This assumes that if an optional header parameter is None, it should not be sent.
                 # If specific behavior (e.g. empty string) is needed for None, logic would adjust.
                 writer.write_line(
-                    f'    **({{"{original_header_name}": DataclassSerializer.serialize({param_var_name})}} '
+                    f'    **({{"{original_header_name}": {value_expr}}} '
                     f"if {param_var_name} is not None else {{}}){line_end}"
                 )
 
